@@ -1,0 +1,17 @@
+//go:build verif
+
+package bugcmd
+
+// Contracts for the `git bug` listing command (property C12).
+// Comment-only file: it is compiled only with -tags verif and contains no code.
+
+// repairQuery rebuilds the query from the command-line arguments after the shell removed the quotes: every
+// argument is cut at *every* colon, each piece that contains a space is quoted again, and the pieces are put
+// back together with colons (so `metadata:key:"two words"` survives the shell).
+//@ func repairQuery
+//@   props C12
+//@   assert at `args[i] = strings.Join(split, ":")` [every-piece-with-a-space-is-quoted-again] len(split) == strings.pieces(arg, ":") && (forall j int :: { split[j] } 0 <= j && j < len(split) ==> split[j] == (strings.Contains(strings.piece(arg, ":", j), " ") ? "\"" + strings.piece(arg, ":", j) + "\"" : strings.piece(arg, ":", j)))
+//@   loop 2
+//@     invariant (split == nil || fresh(split)) && len(split) == strings.pieces(arg, ":")
+//@     invariant forall j int :: { split[j] } 0 <= j && j <= rangeindex ==> split[j] == (strings.Contains(strings.piece(arg, ":", j), " ") ? "\"" + strings.piece(arg, ":", j) + "\"" : strings.piece(arg, ":", j))
+//@     invariant forall j int :: { split[j] } rangeindex < j && j < len(split) ==> split[j] == strings.piece(arg, ":", j)
